@@ -157,6 +157,11 @@ func runC20(c *Ctx) {
 		c.S.Count("probe.concurrent_requests")
 		descr += fmt.Sprintf(" +%d concurrent requests", len(comp))
 	}
+	if defect == "" && c.T.Bool(1, 4) {
+		// the client half-closes its connection after the request and waits for the answer
+		req.HalfClose = true
+		descr += " client-half-closes"
+	}
 	main := c.W.Start(req)
 	c.W.WaitAll(append([]*env.Pending{main}, comp...), 40*time.Second)
 	r := main.Res
